@@ -28,8 +28,8 @@ theorem popN_append : ∀ (rel : Stack) (n : Nat) (base : Stack) (p : List Entry
       rw [popN_append rel _ base p1 r1 h1]
     · contradiction
 
-theorem pushReduced_append (T : Table) (bottom : Nat) (A : Nat) (p : List Entry) (r base : Stack) :
-    pushReduced T bottom A p (r ++ base) = pushReduced T (top bottom base) A p r ++ base := by
+theorem pushReduced_append (T : Table) (bottom : Nat) (A : Nat) (p : List Entry) (r base : Stack) (x : Bool) :
+    pushReduced T bottom A p (r ++ base) x = pushReduced T (top bottom base) A p r x ++ base := by
   simp [pushReduced, top_append]
 
 /-- A step that succeeds above a frame is the same step on the whole stack. -/
@@ -37,20 +37,10 @@ theorem step_frame (T : Table) (bottom : Nat) (rel base : Stack) (inp : List Tok
     (h : step T (top bottom base) rel inp = some (rel', inp')) :
     step T bottom (rel ++ base) inp = some (rel' ++ base, inp') := by
   unfold step at h ⊢
-  cases inp with
-  | nil => simp at h
-  | cons x rest =>
-    simp only at h ⊢
-    rw [top_append]
+  rw [top_append]
+  by_cases hnl : T.noLookahead (top (top bottom base) rel) = true
+  · simp only [hnl, if_true] at h ⊢
     split at h
-    · simp only [Option.some.injEq, Prod.mk.injEq] at h
-      obtain ⟨h1, h2⟩ := h
-      subst h1 h2
-      simp
-    · simp only [Option.some.injEq, Prod.mk.injEq] at h
-      obtain ⟨h1, h2⟩ := h
-      subst h1 h2
-      simp
     · rename_i A n hact
       split at h
       · rename_i p r hp
@@ -60,7 +50,30 @@ theorem step_frame (T : Table) (bottom : Nat) (rel base : Stack) (inp : List Tok
         simp only [popN_append rel n base p r hp, pushReduced_append]
       · contradiction
     · contradiction
-    · contradiction
+  · simp only [hnl] at h ⊢
+    cases inp with
+    | nil => simp at h
+    | cons x rest =>
+      simp only [Bool.false_eq_true, if_false] at h ⊢
+      split at h
+      · simp only [Option.some.injEq, Prod.mk.injEq] at h
+        obtain ⟨h1, h2⟩ := h
+        subst h1 h2
+        simp
+      · simp only [Option.some.injEq, Prod.mk.injEq] at h
+        obtain ⟨h1, h2⟩ := h
+        subst h1 h2
+        simp
+      · rename_i A n hact
+        split at h
+        · rename_i p r hp
+          simp only [Option.some.injEq, Prod.mk.injEq] at h
+          obtain ⟨h1, h2⟩ := h
+          subst h1 h2
+          simp only [popN_append rel n base p r hp, pushReduced_append]
+        · contradiction
+      · contradiction
+      · contradiction
 
 theorem steps_frame (T : Table) (bottom : Nat) (base : Stack) :
     ∀ (k : Nat) (rel : Stack) (inp : List Tok) (rel' : Stack) (inp' : List Tok),
@@ -82,28 +95,39 @@ theorem step_append (T : Table) (bottom : Nat) (st : Stack) (inp r : List Tok) (
     (h : step T bottom st inp = some (st', inp')) :
     step T bottom st (inp ++ r) = some (st', inp' ++ r) := by
   unfold step at h ⊢
-  cases inp with
-  | nil => simp at h
-  | cons x rest =>
-    simp only [List.cons_append] at h ⊢
+  by_cases hnl : T.noLookahead (top bottom st) = true
+  · simp only [hnl, if_true] at h ⊢
     split at h
-    · simp only [Option.some.injEq, Prod.mk.injEq] at h
-      obtain ⟨h1, h2⟩ := h
-      subst h1 h2
-      simp
-    · simp only [Option.some.injEq, Prod.mk.injEq] at h
-      obtain ⟨h1, h2⟩ := h
-      subst h1 h2
-      simp
     · split at h
-      · rename_i p r1 hp
-        simp only [Option.some.injEq, Prod.mk.injEq] at h
+      · simp only [Option.some.injEq, Prod.mk.injEq] at h
+        obtain ⟨h1, h2⟩ := h
+        subst h1 h2
+        rfl
+      · contradiction
+    · contradiction
+  · simp only [hnl] at h ⊢
+    cases inp with
+    | nil => simp at h
+    | cons x rest =>
+      simp only [List.cons_append, Bool.false_eq_true, if_false] at h ⊢
+      split at h
+      · simp only [Option.some.injEq, Prod.mk.injEq] at h
         obtain ⟨h1, h2⟩ := h
         subst h1 h2
         simp
+      · simp only [Option.some.injEq, Prod.mk.injEq] at h
+        obtain ⟨h1, h2⟩ := h
+        subst h1 h2
+        simp
+      · split at h
+        · rename_i p r1 hp
+          simp only [Option.some.injEq, Prod.mk.injEq] at h
+          obtain ⟨h1, h2⟩ := h
+          subst h1 h2
+          simp
+        · contradiction
       · contradiction
-    · contradiction
-    · contradiction
+      · contradiction
 
 theorem steps_append (T : Table) (bottom : Nat) (r : List Tok) :
     ∀ (k : Nat) (st : Stack) (inp : List Tok) (st' : Stack) (inp' : List Tok),
